@@ -139,6 +139,7 @@ def replay_store(rep, pool, beh):
 
 
 def run(rep, tier, seed):
+    gd.pollute()        # same-named custom callables have been used in this process before any spec is parsed
     a = tlc.model_check("SpecStore", "MC_SpecStore.cfg")
     rep.add_tlc(a, "A:MC_SpecStore")
     if not a["ok"]:
